@@ -232,3 +232,47 @@ def resolve_in_block(stmt, e):
             return n
 
     return R().visit(copy.deepcopy(e))
+
+
+# ---------------------------------------------------------------- memoryless state setters
+def memoryless_setters(model, rep, setters, rule='state-reuse-keyed'):
+    """``setters``: list of (module, class, method) whose job is to (re)compute state of the object from their arguments.
+    For each, every attribute the method writes must be written on every path before it is read (the state after the
+    call is a function of the arguments), or -- where the method deliberately keeps a stored value -- the conditions that
+    decide between keeping and recomputing must depend on every argument the stored value depends on.  Early-return memo
+    guards are judged by the memo-key rule and skipped here."""
+    from ..engines import memo
+    rep.rule(rule, 'a state-setting method reuses a stored attribute only under conditions that depend on every argument '
+                   'the stored value depends on')
+    n = 0
+    for mname, cname, meth in setters:
+        mod = model.mod(mname)
+        ci = model.cls(mname, cname)
+        fn = ci.methods.get(meth)
+        if fn is None:
+            raise AnalysisError('anchor vanished: %s.%s' % (cname, meth))
+        n += 1
+        guards = [g.node for g in memo.find_guards(fn)]
+        reuses = memo.state_reuse(fn, guards)
+        bad = [r for r in reuses if r.value_deps - r.guard_deps]
+        if not bad:
+            rep.ob(rule, mod, fn, '%s.%s: %s' % (cname, meth, 'every written attribute is assigned before it is read' if not reuses else
+                                               'stored %s reused under tests covering %s' % (', '.join(r.attr for r in reuses),
+                                                                                            sorted(set().union(*[r.value_deps for r in reuses])))),
+                   True, engine='memo', qual='%s.%s' % (cname, meth))
+        for r in bad:
+            miss = sorted(r.value_deps - r.guard_deps)
+            rep.ob(rule, mod, r.node, '%s.%s keeps self.%s from an earlier call (%s)' % (cname, meth, r.attr, r.how), False,
+                   'the stored value depends on %s, but the tests that decide whether it is recomputed (%s) do not: a call that '
+                   'differs only in %s leaves self.%s as computed for the previous arguments'
+                   % (', '.join(miss), '; '.join(unparse(g)[:60] for g in r.guards) or 'none', ', '.join(miss), r.attr),
+                   engine='memo', qual='%s.%s' % (cname, meth))
+    # synthetic positive example: a cache keyed on one of two arguments
+    from ..model import attach_parents
+    probe = attach_parents(ast.parse(
+        'class X:\n def set(self, a, b):\n  k = a * 2\n  if self.k is None or k != self.k:\n   self.k = k\n   self.v = {}\n'
+        '  for i in range(3):\n   if i not in self.v:\n    self.v[i] = f(i, a, b)\n'))
+    rr = {r.attr: r for r in memo.state_reuse(probe.body[0].body[0])}
+    if 'v' not in rr or rr['v'].value_deps - rr['v'].guard_deps != {'b'}:
+        raise AnalysisError('memo engine self-check failed on the synthetic conditional reuse')
+    return n
